@@ -160,7 +160,7 @@ SerdeRel(op, a, r) ==
 \* Integer projections of floating-point results (computed by the recorder in f64 from the native values).
 \* The model knows the exact rational inputs, so it knows which side of each threshold they are on.
 IsIntTup(x, n) == x.t = "Tup" /\ Len(x.c) = n
-ProjOps == {"slerp_proj", "nlerp_proj", "slerp_axis_proj", "look_proj", "arc_proj", "small_rot_proj", "norm_proj", "trig_big_proj", "tiny_inv_proj", "slab_proj", "scale_proj", "cross_near_proj", "mm_col_proj", "look_mag_proj", "deep_proj", "angle_near_proj", "lerp_end_proj", "dec_concat_proj", "fov_proj", "hom_proj", "near_sing_proj", "tilt_rot_proj", "look2_mag_proj", "planar_far_proj", "lerp_far_proj", "pred_near_proj", "inv_vec_agree_proj", "inv_trig_proj", "forms_eq_proj", "look_near_proj", "unit_roundtrip", "normalize_native", "turn_div_exact", "full_turn_value", "euler_proj"}
+ProjOps == {"slerp_proj", "nlerp_proj", "slerp_axis_proj", "look_proj", "arc_proj", "small_rot_proj", "norm_proj", "trig_big_proj", "tiny_inv_proj", "slab_proj", "scale_proj", "cross_near_proj", "mm_col_proj", "look_mag_proj", "deep_proj", "angle_near_proj", "lerp_end_proj", "dec_concat_proj", "fov_proj", "hom_proj", "near_sing_proj", "subnormal_det_proj", "tilt_rot_proj", "look2_mag_proj", "planar_far_proj", "lerp_far_proj", "pred_near_proj", "inv_vec_agree_proj", "inv_trig_proj", "forms_eq_proj", "look_near_proj", "unit_roundtrip", "normalize_native", "turn_div_exact", "full_turn_value", "euler_proj"}
 \* degree of homogeneity of the operations when every vector / point / matrix / quaternion argument is multiplied by k
 \* (scalar arguments are not scaled): linear operations 1, products and quadratic forms 2, determinants n, inverses -1,
 \* directions and angles 0
@@ -268,6 +268,15 @@ ProjRel(op, k, a, r) ==
                           /\ r.c[1].c[1] = TRUE /\ r.c[2].c[1] <= 64 /\ r.c[3].c[1] <= 64
     \* C02 next to singular: determinant g det(M) by multilinearity, an inverse exists and undoes the matrix
     [] op = "near_sing_proj" -> /\ IsIntTup(r, 3) /\ Det(a[1].c) # Zero /\ r.c[1].c[1] <= 64 /\ r.c[2].c[1] = TRUE /\ r.c[3].c[1] <= 64
+    \* C02 with a subnormal determinant: M exact monomial (one non-zero entry per column, each +-1, +-2, +-1/2; det # 0), scaled
+    \* natively by a power of two so that nothing rounds: determinant exact and non-zero, an inverse exists, and it is exact
+    [] op = "subnormal_det_proj" ->
+         LET M == a[1].c  n == Len(a[1].c)  Ent == {R(1), R(-1), R(2), R(-2), <<1, 2>>, <<-1, 2>>} IN
+         /\ IsIntTup(r, 3) /\ n \in {2, 3}
+         /\ \A c \in 1..n : /\ Cardinality({i \in 1..n : M[c][i] # Zero}) = 1
+                             /\ \A i \in 1..n : M[c][i] = Zero \/ M[c][i] \in Ent
+         /\ Det(M) # Zero
+         /\ \A i \in 1..3 : r.c[i].c[1] = TRUE
     \* C06 with the axis a hair off a coordinate axis (n, m exact orthonormal): as small_rot_proj
     [] op = "tilt_rot_proj" -> /\ IsIntTup(r, 2) /\ Dot(a[3].c, a[3].c) = One /\ Dot(a[4].c, a[4].c) = One /\ Dot(a[3].c, a[4].c) = Zero
                                /\ Dot(a[5].c, a[5].c) = One /\ r.c[1].c[1] <= 256 /\ r.c[2].c[1] <= 64
